@@ -111,18 +111,29 @@ def grep_forbidden():
 
 
 def check_property_file(pid):
-    """Compile Properties/<pid>.v afresh and collect `Print Assumptions` output.
+    """Compile Properties/<pid>.v and every Properties/<pid>_*.v (supplementary property files,
+    same rules) afresh and collect `Print Assumptions` output."""
+    import glob
+    files = [os.path.join(COQ, "theories", "Properties", pid + ".v")] + \
+        sorted(glob.glob(os.path.join(COQ, "theories", "Properties", pid + "_*.v")))
+    res = {"ok": True, "log": "", "theorems": [], "cmd": ""}
+    for src in files:
+        r = check_one_property_file(pid, src)
+        res["ok"] = res["ok"] and r["ok"]
+        res["log"] += r["log"] if not r["ok"] else ""
+        res["theorems"] += r["theorems"]
+        res["cmd"] = (res["cmd"] + "; " if res["cmd"] else "") + r["cmd"]
+    return res
 
-    Returns dict(ok, theorems=[{name, statement, assumptions}], log).
-    """
-    src = os.path.join(COQ, "theories", "Properties", pid + ".v")
+
+def check_one_property_file(pid, src):
     txt = open(src, encoding="utf8").read()
     names = re.findall(r"^\s*Print Assumptions\s+([A-Za-z0-9_']+)\s*\.", txt, flags=re.M)
     thm_names = re.findall(r"^\s*(?:Theorem|Corollary)\s+([A-Za-z0-9_']+)", txt, flags=re.M)
     rc, out = sh("timeout 600 coqc -Q theories XV %s 2>&1" %
                  os.path.relpath(src, COQ), cwd=COQ, timeout=630)
     res = {"ok": rc == 0, "log": out[-4000:], "theorems": [], "cmd":
-           "coqc -Q theories XV theories/Properties/%s.v (after make; Print Assumptions under every theorem)" % pid}
+           "coqc -Q theories XV %s (after make; Print Assumptions under every theorem)" % os.path.relpath(src, COQ)}
     if rc != 0:
         return res
     # Split output into blocks: each Print Assumptions prints either
@@ -310,7 +321,9 @@ TRUSTED_BASE = [
 def proof_stage(run, pid, extra_targets=()):
     """Build + property file + forbidden grep.  Returns (ok, info dict).  On
     failure the caller goes to the search stage."""
-    b = build(targets=["theories/Properties/%s.vo" % pid] + list(extra_targets))
+    import glob
+    sup = [os.path.relpath(f, COQ)[:-2] + ".vo" for f in glob.glob(os.path.join(COQ, "theories", "Properties", pid + "_*.v"))]
+    b = build(targets=["theories/Properties/%s.vo" % pid] + sup + list(extra_targets))
     info = {"build_ok": b.ok}
     if not b.ok:
         info.update({"failed": b.failed_file, "stage": b.stage, "log": b.log[-3000:]})
